@@ -37,6 +37,16 @@ theorem static_ncg_eq_eager (x0 : V) :
     | .error _ => ncgStatic c f hessp ip gradnorm cg x0 = none :=
   ncgStatic_sim c f hessp ip gradnorm cg x0
 
+/-- **Full-stack equivalence**: the compiled minimiser running the compiled conjugate gradient (`_static_cg`) returns
+    exactly what the eager minimiser running the eager conjugate gradient (`_cg`) returns — for every objective, every CG
+    stopping configuration that allows one iteration (`_raise_nonposdef = False`, as `_newton_cg` passes it), all limits. -/
+theorem static_stack_eq_eager_stack (cc : CgRe.Cfg K) (hr : cc.raiseNPD = false) (hmax : 0 < CgRe.maxiterEff cc) (x0 : V) :
+    match ncgEager c f hessp ip gradnorm (cgOracle cc ip hessp) x0 with
+    | .ok r => ncgStatic c f hessp ip gradnorm (cgOracleStatic cc ip hessp) x0 = some r
+    | .error _ => ncgStatic c f hessp ip gradnorm (cgOracleStatic cc ip hessp) x0 = none := by
+  rw [cgOracleStatic_eq cc ip hessp hr hmax]
+  exact static_ncg_eq_eager c f hessp ip gradnorm (cgOracle cc ip hessp) x0
+
 /-- **Compiled Newton-CG never goes uphill.** -/
 theorem static_ncg_never_uphill (x0 : V) (r : NRes K V) (h : ncgStatic c f hessp ip gradnorm cg x0 = some r) :
     r.fn = (f r.x).1 ∧ r.jac = (f r.x).2 ∧ r.fn ≤ (f x0).1 := by
